@@ -66,6 +66,9 @@ def build(u):
     u.spec('rewrite.rs')
     u.spec('section_iter.rs')
     u.spec('flatten.rs')
+    u.spec('index.rs')
+    u.spec('index_lookup.rs')
+    u.spec('agreement.rs')
     IMPL = r'SourceMapBuilder\b'
     from .common import fxhashmap
     def bprep(f):
